@@ -171,6 +171,32 @@ func c07Layers() []rspLayer {
 	}
 }
 
+// canonNamed is canon with field names, for readable snapshots of whole layers.
+func canonNamed(v reflect.Value) string {
+	for v.Kind() == reflect.Ptr && !v.IsNil() {
+		v = v.Elem()
+	}
+	if v.Kind() != reflect.Struct {
+		return canon(v)
+	}
+	if v.CanInterface() {
+		if _, ok := v.Interface().(time.Time); ok {
+			return canon(v)
+		}
+	}
+	parts := []string{}
+	for i := 0; i < v.NumField(); i++ {
+		f := v.Field(i)
+		name := v.Type().Field(i).Name
+		if f.Kind() == reflect.Struct {
+			parts = append(parts, name+":"+canonNamed(f))
+		} else {
+			parts = append(parts, name+":"+canon(f))
+		}
+	}
+	return "{" + strings.Join(parts, " ") + "}"
+}
+
 // canon renders a value independent of named types and String methods.
 func canon(v reflect.Value) string {
 	if !v.IsValid() {
@@ -214,9 +240,17 @@ func canon(v reflect.Value) string {
 		if v.IsNil() {
 			return "<nil>"
 		}
+		if v.Kind() == reflect.Interface {
+			// hash.Hash, cipher.Block etc.: opaque state, not part of the decoded value
+			return "<" + v.Elem().Type().String() + ">"
+		}
 		return canon(v.Elem())
+	case reflect.Func, reflect.Chan, reflect.UnsafePointer, reflect.Map:
+		return "<" + v.Kind().String() + ">"
+	case reflect.Float32, reflect.Float64:
+		return fmt.Sprint(v.Float())
 	}
-	return fmt.Sprint(v)
+	return "<" + v.Kind().String() + ">"
 }
 
 // c07One decodes in with the library and compares every field the reference defines.
@@ -405,6 +439,13 @@ func runC07(r *rep.R) {
 					do(fsr, fsrBody(byte(typ)<<6|byte(n), pattern(need-1, content[0], content[1])))
 				}
 			}
+		}
+	}
+	// 8-bit strings whose high bytes happen to form well-formed UTF-8
+	for _, content := range [][]byte{{0xC2, 0xB0, 'C'}, {'Z', 0xC3, 0xA9}, {0xE2, 0x82, 0xAC}, {0xF0, 0x9F, 0x98, 0x80}, {0xC2, 0xB0, 0xC2, 0xB5, 0xC3, 0xBC}, {'a', 0xC2, 0xA0, 'b', 0xDF, 0xBF}} {
+		for _, typ := range []byte{3} {
+			do(fsr, fsrBody(typ<<6|byte(len(content)), content))
+			do(fsr, fsrBody(typ<<6|byte(len(content)), append(append([]byte{}, content...), 0x99, 0x98)))
 		}
 	}
 	// rejection of malformed messages and wrappers
